@@ -180,3 +180,79 @@ Theorem C08_fixed_rect_constraints_bind d n root ccs fixed rects c cs :
     ((ri < n)%nat -> tag_at (setup_layout d n root ccs) ri = Some (TNode ri)).
 Proof. exact (fixed_rect_constraints_bind_thm d n root ccs fixed rects c cs). Qed.
 Print Assumptions C08_fixed_rect_constraints_bind.
+
+(* ---- exemption groups across repeated setAvoidNodeOverlaps() calls (seeded change C08-6; DESIGN 9.16).  Model
+   Cola/NonOverlapExemptModel.v of NonOverlapConstraintExemptions (a std::set<ShapePair>, smaller id first) and of the two members
+   of ConstrainedFDLayout the setter writes; tied by the `exempt` correspondence of checks/c08.py (shapePairIsExempt for every ordered
+   pair and getExemptPairs() after every call, exhaustive for small n, random for larger).  After ANY sequence of calls the exempt
+   pairs are exactly the distinct pairs sharing a group of the LAST call. *)
+From Coq Require Import Sorted.
+From Adapt Require Import Cola.NonOverlapExemptModel Cola.NonOverlapExempt.
+Theorem C08_exempt_after_calls calls last a b :
+  shape_pair_is_exempt (ex_after (calls ++ [last])) a b = true <-> a <> b /\ exists g, In g last /\ In a g /\ In b g.
+Proof. exact (exempt_after_calls_thm calls last a b). Qed.
+Print Assumptions C08_exempt_after_calls.
+
+Theorem C08_exempt_after_calls_sym calls a b :
+  shape_pair_is_exempt (ex_after calls) a b = shape_pair_is_exempt (ex_after calls) b a.
+Proof. exact (exempt_after_calls_sym calls a b). Qed.
+Print Assumptions C08_exempt_after_calls_sym.
+
+Theorem C08_exempt_after_no_call a b : shape_pair_is_exempt (ex_after []) a b = false.
+Proof. exact (exempt_after_no_call a b). Qed.
+Print Assumptions C08_exempt_after_no_call.
+
+(* the layout object: the flag and the exemptions in force are those of the last call, whatever came before *)
+Theorem C08_options_after_calls calls avoid groups :
+  o_avoid (after_calls (calls ++ [(avoid, groups)])) = avoid /\
+  forall a b, shape_pair_is_exempt (o_ex (after_calls (calls ++ [(avoid, groups)]))) a b = true <->
+              a <> b /\ exists g, In g groups /\ In a g /\ In b g.
+Proof. exact (options_after_calls_thm calls avoid groups). Qed.
+Print Assumptions C08_options_after_calls.
+
+(* the pair obligation that checks/c08.py takes from the extracted model for the call-sequence family *)
+Theorem C08_obliged_pairs_after_calls calls avoid groups n i j :
+  In (i, j) (obliged_pairs (after_calls (calls ++ [(avoid, groups)])) n) <->
+  avoid = true /\ (i < j < n)%nat /\ ~ (i <> j /\ exists g, In g groups /\ In i g /\ In j g).
+Proof. exact (obliged_pairs_thm calls avoid groups n i j). Qed.
+Print Assumptions C08_obliged_pairs_after_calls.
+
+(* addShape consults the exemption object: with the object in the state the calls leave, a pair is skipped iff the LAST call
+   declares it exempt *)
+Theorem C08_add_shape_uses_last_call calls last offs prs id hw hh g ex i j :
+  In (i, j) (snd (add_shape (ex_after (calls ++ [last])) (offs, prs) id hw hh g ex)) <->
+  In (i, j) prs \/
+  exists o, In o offs /\ (i, j) = npair (s_id o) id /\ s_group o = g /\ id <> s_id o /\
+            mem (s_id o) ex = false /\ ~ (s_id o <> id /\ exists gr, In gr last /\ In (s_id o) gr /\ In id gr).
+Proof. exact (add_shape_uses_last_call calls last offs prs id hw hh g ex i j). Qed.
+Print Assumptions C08_add_shape_uses_last_call.
+
+(* the stored set is strictly increasing in ShapePair order with the smaller id first (compared with getExemptPairs()) *)
+Theorem C08_exempt_set_sorted calls :
+  StronglySorted pair_lt (ex_after calls) /\ forall x y, In (x, y) (ex_after calls) -> (x < y)%nat.
+Proof. exact (ex_after_sorted calls). Qed.
+Print Assumptions C08_exempt_set_sorted.
+
+(* without m_exempt_pairs.clear() (seeded change C08-6) both statements fail: witness = the call sequence {{0,1}} then {{2,3}} *)
+Theorem C08_exempt_after_calls_noclear_refuted :
+  exists calls last a b,
+    shape_pair_is_exempt (ex_after_noclear (calls ++ [last])) a b = true /\
+    ~ (a <> b /\ exists g, In g last /\ In a g /\ In b g).
+Proof. exact exempt_after_calls_noclear_refuted. Qed.
+Print Assumptions C08_exempt_after_calls_noclear_refuted.
+
+Theorem C08_obliged_pairs_noclear_refuted :
+  exists calls avoid groups n i j,
+    avoid = true /\ (i < j < n)%nat /\ ~ (i <> j /\ exists g, In g groups /\ In i g /\ In j g) /\
+    ~ In (i, j) (obliged_pairs (after_calls_noclear (calls ++ [(avoid, groups)])) n).
+Proof. exact obliged_pairs_noclear_refuted. Qed.
+Print Assumptions C08_obliged_pairs_noclear_refuted.
+
+(* non-vacuity: the demo sequence, an unsorted group with duplicates, true -> false -> true, and a last call that switches off *)
+Example C08_exempt_calls_nonvacuous :
+  shape_pair_is_exempt (ex_after [[[0; 1]]; [[2; 3]]]%nat) 0 1 = false /\
+  shape_pair_is_exempt (ex_after [[[0; 1]]; [[2; 3]]]%nat) 3 2 = true /\
+  ex_after [[[0; 1]]; [[3; 1; 3; 2]; [5; 1]]]%nat = [(1, 2); (1, 3); (1, 5); (2, 3)]%nat /\
+  obliged_pairs (after_calls [(true, [[0; 1]]); (false, []); (true, [[2; 1]])]%nat) 3 = [(0, 1); (0, 2)]%nat /\
+  obliged_pairs (after_calls [(true, [[0; 1]]); (false, [[0; 1]])]%nat) 3 = [].
+Proof. exact ex_calls_demo. Qed.
